@@ -1,15 +1,15 @@
 (* C09 / C10 theorems instantiated at the bit-exact binary64 instance `fops`: the hypothesis `fp_ok o` is discharged by
-   C09/FloatFacts.v (Flocq).  Kept outside Properties_C09.v / Properties_C10.v because of the Reals axioms (see FloatFacts.v). *)
+   C09/FloatFacts.v (Flocq).  Used by the `_fops` theorems of Properties_C09.v. *)
 From Coq Require Import List ZArith.
-From V Require Import Base.U32 C09.Model C09.Proofs C09.FloatFacts.
+From V Require Import Base.U32 C09.Model C09.Proofs C09.Fb13 C09.FloatFacts.
 Local Open Scope Z_scope.
 
 Theorem C09_fp_facts_hold : fp_ok fops.
 Proof. exact fops_ok. Qed.
 Print Assumptions C09_fp_facts_hold.
 
-Definition C09_range_fops := C09_range_thm fops fops_ok.
-Definition C09_direction_fops := C09_direction_thm fops fops_ok.
-Definition C09_accounting_rs_fops := C09_accounting_rs_thm fops fops_ok.
-Definition C09_end_to_end_rs_fops := C09_end_to_end_rs_thm fops fops_ok.
-Check C09_range_fops. Check C09_direction_fops. Check C09_accounting_rs_fops. Check C09_end_to_end_rs_fops.
+Definition C09_range_inst := C09_range_thm fops fops_ok.
+Definition C09_direction_inst := C09_direction_thm fops fops_ok.
+Definition C09_accounting_rs_inst := C09_accounting_rs_thm fops fops_ok.
+Definition C09_end_to_end_rs_inst := C09_end_to_end_rs_thm fops fops_ok.
+Definition C09_accounting_fb13_inst := C09_accounting_fb13_thm fops fops_ok.
